@@ -33,7 +33,8 @@ Definition step (m : dmap) (e : entry) : dmap :=
   | KFile =>
       if scan_excluded (e_cols e) false then m
       else if count_excluded (e_cols e) then m
-      else upsert m (e_parent e) (if 0 <? e_depth e then e_depth e - 1 else 0) inc_files
+      else if 0 <? e_depth e then upsert m (e_parent e) (e_depth e - 1) inc_files
+      else m     (* fixes/D130: a file that is itself the scan root (depth 0): its parent was not walked and gets no record *)
   | KDir =>
       if scan_excluded (e_cols e) true then m
       else
